@@ -64,3 +64,6 @@ Proof.
     induction l as [|b l IH]; intros [|n] Hin; simpl in *; try tauto. destruct Hin; eauto.
   - inversion H; auto.
 Qed.
+
+Lemma Forall_perm {A} (P : A -> Prop) (l l' : list A) : Permutation l l' -> Forall P l -> Forall P l'.
+Proof. intros H F. apply Forall_forall. intros x Hx. eapply Forall_forall in F; eauto. eapply Permutation_in; [apply Permutation_sym|]; eauto. Qed.
